@@ -151,7 +151,7 @@ func c11(args []string) error {
 		os.WriteFile(in, []byte(fa.String()), 0644)
 		seed := r.Int63n(1 << 40)
 		t2 := []int{2, 3, 8, 16}[r.Intn(4)]
-		switch kind := r.Intn(12); {
+		switch kind := r.Intn(13); {
 		case kind < 5: // the same command twice, different thread counts
 			t := tmpls[r.Intn(len(tmpls))]
 			mk := func(threads int) []string {
@@ -211,6 +211,57 @@ func c11(args []string) error {
 			emit(1, "build seqboot", names, seqs, rawTape(seed, 40+n*(L+nseq+4)), n, frac, shuffle, f1, f2, rc1, rc2,
 				map[string]interface{}{"op": "seqboot", "n": n, "frac": frac.f(), "shuffle": shuffle, "threads": t2, "rseed": seed, "names": names, "seqs": seqs})
 			stats["seqboot"]++
+		case kind == 12: // phase / phasent / orf on many sequences: the workers finish in any order
+			orf := "ATG"
+			for k := 0; k < 12+r.Intn(10); k++ {
+				c := randSeq(r, 3, func(r *rand.Rand) byte { return "ACGT"[r.Intn(4)] })
+				if c == "TAA" || c == "TAG" || c == "TGA" {
+					c = "GCT"
+				}
+				orf += c
+			}
+			orf += "TAA"
+			nb := 25 + r.Intn(40)
+			var fb strings.Builder
+			mnames, mseqs := []string{}, []string{}
+			for k := 0; k < nb; k++ {
+				b := []byte(orf)
+				for j := range b {
+					if r.Intn(15) == 0 {
+						b[j] = "ACGT"[r.Intn(4)]
+					}
+				}
+				sq := randSeq(r, r.Intn(15), func(r *rand.Rand) byte { return "ACGT"[r.Intn(4)] }) + string(b) +
+					randSeq(r, r.Intn(15), func(r *rand.Rand) byte { return "ACGT"[r.Intn(4)] })
+				nm := fmt.Sprintf("q%03d", k)
+				fmt.Fprintf(&fb, ">%s\n%s\n", nm, sq)
+				mnames, mseqs = append(mnames, nm), append(mseqs, sq)
+			}
+			many := filepath.Join(dir, "many.fa")
+			os.WriteFile(many, []byte(fb.String()), 0644)
+			sub := []string{"phase", "phasent", "orf"}[r.Intn(3)]
+			run := func(threads int, tag string) (string, int) {
+				out := filepath.Join(dir, "out-"+tag)
+				a := []string{sub, "-i", many, "-o", out, "-t", fmt.Sprint(threads)}
+				if sub != "orf" {
+					a = append(a, "--unaligned", "-l", out+".log")
+				} else if nb%2 == 0 {
+					a = append(a, "--reverse")
+				}
+				o := runCLI(bin, dir, a...)
+				b1, _ := os.ReadFile(out)
+				b2, _ := os.ReadFile(out + ".log")
+				return o.stdout + "\x00" + string(b1) + "\x00" + string(b2), o.rc
+			}
+			tt := []int{4, 8, 16}[r.Intn(3)]
+			o1, rc1 := run(1, "a")
+			o2, rc2 := run(tt, "b")
+			emit(0, sub+" many sequences", mnames[:3], mseqs[:3], nil, 0, dyadic{1, 1}, false, []string{o1}, []string{o2}, rc1, rc2,
+				map[string]interface{}{"op": "twice:" + sub + "-many", "threads": tt, "nseq": nb, "rc": rc1})
+			stats["twice:"+sub+"-many"]++
+			if rc1 != 0 {
+				stats["twice:"+sub+"-many:rc!=0"]++
+			}
 		case kind >= 10: // reformat phylip / fasta: stdout predicted by the writer models
 			if kind == 10 {
 				v := r.Intn(4)
